@@ -27,3 +27,22 @@ Fixpoint val_eqb (a b : val) {struct a} : bool :=
          end) x y
   | _, _ => false
   end.
+
+(** helpers for the per-run vm_compute sample *)
+From SSZ Require Import Builder BitfieldOps.
+Fixpoint lists_eqb {A} (eqb : A -> A -> bool) (a b : list A) : bool :=
+  match a, b with
+  | [], [] => true
+  | x :: ar, y :: br => eqb x y && lists_eqb eqb ar br
+  | _, _ => false
+  end.
+Definition builder_matches (regs : list (bool * N)) (bs : bytes) (expect : option (list bytes)) : bool :=
+  match builder_build regs bs, expect with
+  | Ok items, Some e => lists_eqb bytes_eqb items e
+  | Err, None => true
+  | _, _ => false
+  end.
+Definition history_matches (fl : flavour) (ops : list bop) (st lens : list N) (ssz : list bytes) : bool :=
+  let os := run_impl fl ops in
+  lists_eqb N.eqb (map o_status os) st && lists_eqb N.eqb (map o_len os) lens
+  && lists_eqb bytes_eqb (map o_ssz os) ssz.
